@@ -16,7 +16,7 @@ func init() {
 		ID:      "C13",
 		Modules: []string{""},
 		Explanation: "Static rules on the v1 string classifier: (R13.1) regexp.MustCompile* is applied only to compile-time constants anywhere in the root module, so registering a value can never panic in the regexp compiler, and a value that is compiled is first passed through regexp.QuoteMeta; " +
-			"(R13.2) every Match pushed on a result queue has a Confidence that is the constant 1.0 or is dominated by a `> 0` test; (R13.3) the length pre-filter admits a candidate whose ratio equals the threshold (inclusive comparison), so exact copies are not dropped at threshold 1.0; (R13.6) result lists are sorted by a comparator that is a strict order on exact comparisons with Confidence as primary descending key (a tolerance makes equality intransitive); (R13.5) an entry point that normalises its text argument uses the raw text for nothing else; (R13.4) in the exact-occurrence shortcut the token that starts an occurrence can also be recognised as the token that ends it (one-token values). " +
+			"(R13.2) every Match pushed on a result queue has a Confidence that is the constant 1.0 or is dominated by a `> 0` test; (R13.3) the length pre-filter admits a candidate whose ratio equals the threshold (inclusive comparison), so exact copies are not dropped at threshold 1.0; (R13.6) result lists are sorted by a comparator that is a strict order on exact comparisons with Confidence as primary descending key (a tolerance makes equality intransitive); (R13.5) an entry point that normalises its text argument uses the raw text for nothing else; (R13.4) an exact occurrence found by the regular expression is reported with its byte range, never by way of token indices (an occurrence need not begin and end with a token). " +
 			"Necessary conditions only: exact Offset/Extent of the occurrence shortcut and the <= 1 bound are numeric behaviour and are not decided.",
 		Run: runC13,
 	})
@@ -363,50 +363,84 @@ func checkCommonWordsGate(c *Ctx, p *core.Prog) {
 	c.R.RequireMin("R16.2", "common-word patterns", len(pats), 2)
 }
 
-// checkOccurrenceShortcut: R13.4. In the loop that converts a regexp occurrence [a0,a1) into a token
-// range, two loop-carried integers are assigned the loop index: `start` under `tok.Offset == a0` and
-// `end` under the end test. For a known value of one token the same token starts and ends the
-// occurrence, so some path through one iteration must perform both assignments.
+// checkOccurrenceShortcut: R13.4. findMatches finds verbatim occurrences of the known value with a regular expression,
+// which delimits them in bytes. An occurrence is reported with exactly that byte range (Offset = a[0],
+// Extent = a[last] - a[0]) and never by way of token indices: an occurrence need not begin and end with a token (a value
+// that begins or ends with white space, an occurrence inside a word), and mapping it to tokens then gives a wrong or an
+// inverted range (D16, D30).
 func checkOccurrenceShortcut(c *Ctx, p *core.Prog) {
 	fm := p.Func(scPkg, "(*matcher).findMatches")
 	if !c.R.Anchor(fm != nil, "stringclassifier.(*matcher).findMatches") {
 		return
 	}
-	// the MatchRange literal built from the two token indices
-	n := 0
+	var occ *ssa.Call
+	for _, f := range core.WithAnon(fm) {
+		for _, call := range core.CallsIn(f) {
+			if n := core.StaticCalleeName(call.Common()); n == "(*regexp.Regexp).FindAllStringIndex" || n == "(*regexp.Regexp).FindAllIndex" {
+				occ, _ = call.(*ssa.Call)
+			}
+		}
+	}
+	if occ == nil {
+		c.R.Info("R13.4", "findMatches: exact occurrences", p.Pos(fm.Pos()), "no regular-expression occurrence search in findMatches")
+		return
+	}
+	// (a) no token range is built from loop-carried token indices (the old shape)
+	nTok := 0
 	for _, f := range core.WithAnon(fm) {
 		for _, lit := range structLits([]*ssa.Function{f}, "searchset.MatchRange") {
 			ts, te := lit.fields["TargetStart"], lit.fields["TargetEnd"]
 			if ts == nil || te == nil {
 				continue
 			}
-			// TargetEnd = end + 1
 			var endV ssa.Value = te
 			if bo, ok := te.(*ssa.BinOp); ok && bo.Op == token.ADD {
 				endV = bo.X
 			}
-			sp, ok1 := ts.(*ssa.Phi)
-			ep, ok2 := endV.(*ssa.Phi)
-			if !ok1 || !ok2 {
-				continue
+			_, ok1 := ts.(*ssa.Phi)
+			_, ok2 := endV.(*ssa.Phi)
+			if ok1 || ok2 {
+				nTok++
+				c.R.Fail("R13.4", "findMatches: an exact occurrence is reported with the byte range the regular expression delimits", p.Pos(lit.alloc.Pos()),
+					"the occurrence is mapped to token indices found by comparing token offsets with its byte bounds: an occurrence that does not begin and end with a token (a known value with leading or trailing white space, an occurrence inside a word, a one-token value) leaves an index at its initial value, so the reported range is wrong or inverted (slice bounds panic in a goroutine)")
 			}
-			n++
-			// blocks (inside the token loop) from which the loop index flows into each phi web
-			sb := assignBlocks(sp)
-			eb := assignBlocks(ep)
-			both := false
-			for _, b1 := range sb {
-				for _, b2 := range eb {
-					if b1 == b2 || reachesForward(b1, b2) {
-						both = true
-					}
-				}
-			}
-			c.R.Check(both, "R13.4", "findMatches: the token that starts an exact occurrence is also tested as its last token", p.Pos(lit.alloc.Pos()),
-				"an iteration can assign both the first and the last token index", "the end test is skipped for the token that starts the occurrence (else-if): for a known value of a single token the last token index is taken from a later token or stays 0, so the reported extent is wrong or the byte range is inverted (slice bounds panic)")
 		}
 	}
-	c.R.RequireMin("R13.4", "token ranges built by the occurrence shortcut", n, 1)
+	// (b) a Match with Offset = a[0] and Extent = a[last] - a[0], a an element of the occurrence list
+	isBound := func(v ssa.Value) (ssa.Value, bool) { // v == a[k]  ->  a
+		ld, ok := v.(*ssa.UnOp)
+		if !ok {
+			return nil, false
+		}
+		ia, ok := ld.X.(*ssa.IndexAddr)
+		if !ok {
+			return nil, false
+		}
+		return ia.X, true
+	}
+	okB := false
+	for _, f := range core.WithAnon(fm) {
+		for _, lit := range structLits([]*ssa.Function{f}, "stringclassifier.Match") {
+			off, ext := lit.fields["Offset"], lit.fields["Extent"]
+			a0, ok := isBound(off)
+			if !ok {
+				continue
+			}
+			sub, isSub := ext.(*ssa.BinOp)
+			if !isSub || sub.Op != token.SUB {
+				continue
+			}
+			a1, ok1 := isBound(sub.X)
+			a2, ok2 := isBound(sub.Y)
+			if ok1 && ok2 && a1 == a0 && a2 == a0 && sameExpr(sub.Y, off, 0) {
+				okB = true
+			}
+		}
+	}
+	if nTok == 0 {
+		c.R.Check(okB, "R13.4", "findMatches: an exact occurrence is reported with the byte range the regular expression delimits", p.Pos(occ.Pos()),
+			"Match{Offset: a[0], Extent: a[last]-a[0]} for every occurrence a", "no match is built from the byte bounds of the occurrence")
+	}
 }
 
 // assignBlocks: the blocks whose outgoing edge carries a fresh (non-phi, non-constant) value into the phi web.
